@@ -1,11 +1,17 @@
 (* KTree: executable model of the component-tree layer of circuits
      circuits/core/components.py : register, unregister, _do_prepare_unregister_complete, _updateRoot
      circuits/core/manager.py    : registerChild, unregisterChild, fireEvent (queue of the root),
-                                   _EventQueue.drainFrom, flush/tick, the handler cache and its dirty flag
-   for a pool of components 0..n-1 that all carry one catch-all logging handler and the built-in
-   prepare_unregister_complete handler.  Single thread, nothing is running.
-   The order in which one flush dispatches its batch (heap order, ties between drained queues) is an
-   argument (the schedule); the model only requires it to be a permutation of the batch.
+                                   _EventQueue.drainFrom, flush/tick, the handler cache and its dirty flag,
+                                   _fire's linking of effects to the event being handled and _effectDone
+                                   (completion of prepare_unregister)
+   for a pool of components 0..n-1 that all carry one catch-all handler (priority 100 - index) and the
+   built-in prepare_unregister_complete handler.  Single thread, nothing is running.
+   The catch-all handler of a component may act while it handles a probe / registered / unregistered /
+   prepare_unregister event: it performs register / unregister / fire operations (act), under the same
+   preconditions as the operations of a history, evaluated when the handler runs.
+   Two things are arguments of the model (the schedule): the order in which one flush dispatches its batch
+   (heap order; only required to be a permutation of the batch) and, per dispatched event, what the handlers
+   of its receivers did.  The theorems quantify over both.
    No proofs in this file. *)
 From Coq Require Import List Arith Bool.
 Import ListNotations.
@@ -51,6 +57,19 @@ Definition key_eqb (a b : key) : bool :=
    and (ghost) whether every one of them had that root as its root at that moment *)
 Record drec := mkd { d_root : comp; d_ev : ev; d_recv : list comp; d_ok : bool }.
 
+(* Completion tracking (Event.cause / Event.effects), flattened.  Only prepare_unregister events ask for
+   completion.  Every such event gets an id when it is fired.  An event fired by a handler while the flushing
+   root handles an event that belongs to the closure of some prepare_unregister events (its tags) belongs to
+   the same closures; out A = number of events of the closure of A that have not been dispatched yet.  The
+   implementation keeps, per event, 1 + the number of its unfinished direct effects; both counts are zero at
+   the same moments, and that is when prepare_unregister_complete is fired. *)
+Record efx := mkfx {
+  qt : comp -> list (list nat);             (* tags of the queued events, parallel to q *)
+  nxt : nat;                                (* next id *)
+  out : nat -> nat;                         (* undispatched members of a closure *)
+  wl : list (nat * comp)                    (* dispatched prepare_unregister(c) events (id, c) that still wait *)
+}.
+
 Record st := mkst {
   par : comp -> comp;                       (* .parent *)
   rt : comp -> comp;                        (* .root *)
@@ -62,7 +81,8 @@ Record st := mkst {
   (* ghost history, newest first *)
   regd : list (comp * comp);                (* completed registrations (c, p) *)
   unregd : list (comp * comp);              (* completed unregistrations (c, former parent) *)
-  disp : list drec                          (* every dispatch *)
+  disp : list drec;                         (* every dispatch *)
+  fx : efx                                  (* completion tracking of prepare_unregister events *)
 }.
 
 Definition upd {A} (f : comp -> A) (k : comp) (v : A) : comp -> A :=
@@ -70,20 +90,22 @@ Definition upd {A} (f : comp -> A) (k : comp) (v : A) : comp -> A :=
 Definition upd2 (f : comp -> comp -> bool) (p c : comp) (v : bool) : comp -> comp -> bool :=
   fun a b => if (a =? p) && (b =? c) then v else f a b.
 
-Definition set_par s f := mkst f (rt s) (kid s) (pend s) (q s) (dirty s) (cache s) (regd s) (unregd s) (disp s).
-Definition set_rt s f := mkst (par s) f (kid s) (pend s) (q s) (dirty s) (cache s) (regd s) (unregd s) (disp s).
-Definition set_kid s f := mkst (par s) (rt s) f (pend s) (q s) (dirty s) (cache s) (regd s) (unregd s) (disp s).
-Definition set_pend s f := mkst (par s) (rt s) (kid s) f (q s) (dirty s) (cache s) (regd s) (unregd s) (disp s).
-Definition set_q s f := mkst (par s) (rt s) (kid s) (pend s) f (dirty s) (cache s) (regd s) (unregd s) (disp s).
-Definition set_dirty s f := mkst (par s) (rt s) (kid s) (pend s) (q s) f (cache s) (regd s) (unregd s) (disp s).
-Definition set_cache s f := mkst (par s) (rt s) (kid s) (pend s) (q s) (dirty s) f (regd s) (unregd s) (disp s).
-Definition set_regd s l := mkst (par s) (rt s) (kid s) (pend s) (q s) (dirty s) (cache s) l (unregd s) (disp s).
-Definition set_unregd s l := mkst (par s) (rt s) (kid s) (pend s) (q s) (dirty s) (cache s) (regd s) l (disp s).
-Definition set_disp s l := mkst (par s) (rt s) (kid s) (pend s) (q s) (dirty s) (cache s) (regd s) (unregd s) l.
+Definition set_par s f := mkst f (rt s) (kid s) (pend s) (q s) (dirty s) (cache s) (regd s) (unregd s) (disp s) (fx s).
+Definition set_rt s f := mkst (par s) f (kid s) (pend s) (q s) (dirty s) (cache s) (regd s) (unregd s) (disp s) (fx s).
+Definition set_kid s f := mkst (par s) (rt s) f (pend s) (q s) (dirty s) (cache s) (regd s) (unregd s) (disp s) (fx s).
+Definition set_pend s f := mkst (par s) (rt s) (kid s) f (q s) (dirty s) (cache s) (regd s) (unregd s) (disp s) (fx s).
+Definition set_q s f := mkst (par s) (rt s) (kid s) (pend s) f (dirty s) (cache s) (regd s) (unregd s) (disp s) (fx s).
+Definition set_dirty s f := mkst (par s) (rt s) (kid s) (pend s) (q s) f (cache s) (regd s) (unregd s) (disp s) (fx s).
+Definition set_cache s f := mkst (par s) (rt s) (kid s) (pend s) (q s) (dirty s) f (regd s) (unregd s) (disp s) (fx s).
+Definition set_regd s l := mkst (par s) (rt s) (kid s) (pend s) (q s) (dirty s) (cache s) l (unregd s) (disp s) (fx s).
+Definition set_unregd s l := mkst (par s) (rt s) (kid s) (pend s) (q s) (dirty s) (cache s) (regd s) l (disp s) (fx s).
+Definition set_disp s l := mkst (par s) (rt s) (kid s) (pend s) (q s) (dirty s) (cache s) (regd s) (unregd s) l (fx s).
+
+Definition set_fx s x := mkst (par s) (rt s) (kid s) (pend s) (q s) (dirty s) (cache s) (regd s) (unregd s) (disp s) x.
 
 Definition init : st :=
   mkst (fun c => c) (fun c => c) (fun _ _ => false) (fun _ => false) (fun _ => [])
-       (fun _ => false) (fun _ => []) [] [] [].
+       (fun _ => false) (fun _ => []) [] [] [] (mkfx (fun _ => []) 0 (fun _ => 0) []).
 
 Inductive res (A : Type) :=
 | Ok (a : A)
@@ -186,6 +208,90 @@ Definition unregister (n : nat) (c : comp) (s : st) : res st :=
 Definition fire (n : nat) (x : comp) (i : nat) (s : st) : res st :=
   if x <? n then Ok (enq (rt s x) (Probe i) s) else PreViolated.
 
+(* ------------------------------------------------------------------ completion tracking (see efx) *)
+
+(* context of a fire: the root whose flush is in progress and the closures of the event it is handling;
+   None = nothing is being handled, or the event being handled has no cause *)
+Definition ctx := option (comp * list nat).
+
+(* _fire links the new event to the event being handled only on the root that is flushing *)
+Definition inherited (c : ctx) (R : comp) : list nat :=
+  match c with Some (r, tg) => if R =? r then tg else [] | None => [] end.
+
+Definition bump (f : nat -> nat) (l : list nat) : nat -> nat :=
+  fold_left (fun g A => upd g A (S (g A))) l f.
+
+(* an event e is appended to the queue of root R *)
+Definition emit_fx (c : ctx) (R : comp) (e : ev) (x : efx) : efx :=
+  let inh := inherited c R in
+  match e with
+  | PrepUnreg _ => mkfx (upd (qt x) R (qt x R ++ [nxt x :: inh])) (S (nxt x))
+                        (upd (bump (out x) inh) (nxt x) 1) (wl x)
+  | _ => mkfx (upd (qt x) R (qt x R ++ [inh])) (nxt x) (bump (out x) inh) (wl x)
+  end.
+
+(* drainFrom *)
+Definition drain_fx (R c : comp) (x : efx) : efx :=
+  mkfx (upd (upd (qt x) R (qt x R ++ qt x c)) c []) (nxt x) (out x) (wl x).
+
+Definition with_fx (r : res st) (x : efx) : res st :=
+  match r with Ok s => Ok (set_fx s x) | e => e end.
+
+Definition emitX (c : ctx) (R : comp) (e : ev) (s : st) : st := set_fx (enq R e s) (emit_fx c R e (fx s)).
+
+Definition registerX (c0 : ctx) (n : nat) (c p : comp) (s : st) : res st :=
+  with_fx (register n c p s) (emit_fx c0 (rt s p) (Registered c p) (drain_fx (rt s p) c (fx s))).
+
+Definition unregisterX (c0 : ctx) (n : nat) (c : comp) (s : st) : res st :=
+  with_fx (unregister n c s) (if pend s c then fx s else emit_fx c0 (rt s c) (PrepUnreg c) (fx s)).
+
+Definition fireX (c0 : ctx) (n : nat) (x : comp) (i : nat) (s : st) : res st :=
+  with_fx (fire n x i s) (emit_fx c0 (rt s x) (Probe i) (fx s)).
+
+(* prepare_unregister_complete has no cause: the unregistered event it fires is not linked *)
+Definition completeX (n : nat) (c : comp) (s : st) : res st :=
+  with_fx (complete n c s) (emit_fx None (rt s c) (Unregistered c (par s c)) (fx s)).
+
+Fixpoint wl_find (A : nat) (l : list (nat * comp)) : option comp :=
+  match l with [] => None | (B, c) :: t => if A =? B then Some c else wl_find A t end.
+
+Fixpoint wl_remove (A : nat) (l : list (nat * comp)) : list (nat * comp) :=
+  match l with [] => [] | (B, c) :: t => if A =? B then t else (B, c) :: wl_remove A t end.
+
+Definition dec (x : efx) (A : nat) : efx := mkfx (qt x) (nxt x) (upd (out x) A (out x A - 1)) (wl x).
+Definition set_wl (x : efx) (l : list (nat * comp)) : efx := mkfx (qt x) (nxt x) (out x) l.
+
+(* _effectDone: the dispatched event leaves the closures it belongs to; a closure that becomes empty fires
+   the completion event of its prepare_unregister (by the dispatching root, nothing being handled) *)
+Fixpoint finish_anc (r : comp) (tg : list nat) (s : st) : st :=
+  match tg with
+  | [] => s
+  | A :: t =>
+      let s1 := match wl_find A (wl (fx s)) with
+                | None => s
+                | Some c => let x := dec (fx s) A in
+                            if out x A =? 0
+                            then emitX None (rt s r) (PrepDone c) (set_fx s (set_wl x (wl_remove A (wl x))))
+                            else set_fx s x
+                end in
+      finish_anc r t s1
+  end.
+
+Definition finish (r : comp) (e : ev) (tg : list nat) (s : st) : st :=
+  match e with
+  | PrepUnreg c =>
+      match tg with
+      | [] => emitX None (rt s r) (PrepDone c) s
+      | B :: t => let x := dec (fx s) B in
+                  let s1 := if out x B =? 0 then emitX None (rt s r) (PrepDone c) (set_fx s x)
+                            else set_fx s (set_wl x ((B, c) :: wl x)) in
+                  finish_anc r t s1
+      end
+  | _ => finish_anc r tg s
+  end.
+
+(* ------------------------------------------------------------------ handlers that act *)
+
 (* what a handler may do while it handles an event: the same three operations, under the same
    preconditions, evaluated at the moment the handler runs.  The root whose flush is in progress cannot be
    registered elsewhere (registerChild asserts that the queue it drains is not being flushed). *)
@@ -194,17 +300,17 @@ Inductive act :=
 | AUnreg (c : comp)
 | AFire (x : comp) (i : nat).
 
-Definition run_act (n : nat) (r : comp) (a : act) (s : st) : res st :=
+Definition run_act (c0 : ctx) (n : nat) (r : comp) (a : act) (s : st) : res st :=
   match a with
-  | AReg c p => if c =? r then PreViolated else register n c p s
-  | AUnreg c => unregister n c s
-  | AFire x i => fire n x i s
+  | AReg c p => if c =? r then PreViolated else registerX c0 n c p s
+  | AUnreg c => unregisterX c0 n c s
+  | AFire x i => fireX c0 n x i s
   end.
 
-Fixpoint run_acts (n : nat) (r : comp) (l : list act) (s : st) : res st :=
+Fixpoint run_acts (c0 : ctx) (n : nat) (r : comp) (l : list act) (s : st) : res st :=
   match l with
   | [] => Ok s
-  | a :: t => match run_act n r a s with Ok s' => run_acts n r t s' | x => x end
+  | a :: t => match run_act c0 n r a s with Ok s' => run_acts c0 n r t s' | x => x end
   end.
 
 (* one entry of a schedule: the event, and for the receivers whose handler did something the operations it
@@ -219,12 +325,12 @@ Fixpoint acts_of (x : comp) (hs : list (comp * list act)) : list act :=
 
 (* the handlers of the receivers ms run one after the other; ok: every receiver had r as its root when
    its handler ran *)
-Fixpoint run_handlers (n : nat) (r : comp) (ms : list comp) (hs : list (comp * list act)) (ok : bool) (s : st)
-  : res (st * bool) :=
+Fixpoint run_handlers (c0 : ctx) (n : nat) (r : comp) (ms : list comp) (hs : list (comp * list act)) (ok : bool)
+  (s : st) : res (st * bool) :=
   match ms with
   | [] => Ok (s, ok)
-  | x :: t => match run_acts n r (acts_of x hs) s with
-              | Ok s' => run_handlers n r t hs (ok && (rt s x =? r)) s'
+  | x :: t => match run_acts c0 n r (acts_of x hs) s with
+              | Ok s' => run_handlers c0 n r t hs (ok && (rt s x =? r)) s'
               | PreViolated => PreViolated
               | BadSched => BadSched
               | OutOfFuel => OutOfFuel
@@ -232,26 +338,31 @@ Fixpoint run_handlers (n : nat) (r : comp) (ms : list comp) (hs : list (comp * l
               end
   end.
 
-(* only events of the kinds probe / registered / unregistered have handlers that act, and only receivers act *)
+(* only handlers of probe / registered / unregistered / prepare_unregister events act, and only receivers *)
 Definition hs_ok (e : ev) (ms : list comp) (hs : list (comp * list act)) : bool :=
   forallb (fun h => existsb (Nat.eqb (fst h)) ms) hs &&
   match e with
-  | Probe _ | Registered _ _ | Unregistered _ _ => true
+  | Probe _ | Registered _ _ | Unregistered _ _ | PrepUnreg _ => true
   | _ => match hs with [] => true | _ => false end
   end.
 
-(* _dispatcher for one event of the batch, dispatched by root r *)
-Definition dispatch (n : nat) (r : comp) (it : item) (s : st) : res st :=
-  let '(e, hs) := it in
+(* _dispatcher for one event of the batch (with the closures tg it belongs to), dispatched by root r *)
+Definition dispatch (n : nat) (r : comp) (it : item * list nat) (s : st) : res st :=
+  let '((e, hs), tg) := it in
   let '(s1, ms) := lookup n r e s in
   if hs_ok e ms hs then
-    match run_handlers n r ms hs true s1 with
+    (* _fire links to the event being handled iff that event has a cause *)
+    let c0 : ctx := match tg with [] => None | _ => Some (r, tg) end in
+    match run_handlers c0 n r ms hs true s1 with
     | Ok (s1', ok) =>
         let s2 := set_disp s1' (mkd r e ms ok :: disp s1') in
-        match e with
-        | PrepUnreg c => Ok (enq (rt s2 r) (PrepDone c) s2)            (* _eventDone: complete event *)
-        | PrepDone c => if existsb (Nat.eqb c) ms then complete n c s2 else Ok s2
-        | _ => Ok s2
+        let r3 := match e with
+                  | PrepDone c => if existsb (Nat.eqb c) ms then completeX n c s2 else Ok s2
+                  | _ => Ok s2
+                  end in
+        match r3 with
+        | Ok s3 => Ok (finish r e tg s3)
+        | x => x
         end
     | PreViolated => PreViolated
     | BadSched => BadSched
@@ -260,7 +371,7 @@ Definition dispatch (n : nat) (r : comp) (it : item) (s : st) : res st :=
     end
   else BadSched.
 
-Fixpoint dispatch_all (n : nat) (r : comp) (sched : list item) (s : st) : res st :=
+Fixpoint dispatch_all (n : nat) (r : comp) (sched : list (item * list nat)) (s : st) : res st :=
   match sched with
   | [] => Ok s
   | e :: t => match dispatch n r e s with
@@ -282,9 +393,27 @@ Fixpoint is_perm (sched batch : list ev) : bool :=
   | e :: t => match remove1 e batch with Some b => is_perm t b | None => false end
   end.
 
+(* the tags of the first entry of the batch that is the event e, and the batch without that entry *)
+Fixpoint take_tags (e : ev) (l : list ev) (tl : list (list nat)) : list nat * (list ev * list (list nat)) :=
+  match l, tl with
+  | x :: t, tg :: tl1 => if ev_eqb e x then (tg, (t, tl1))
+                         else let '(g, (t', tl')) := take_tags e t tl1 in (g, (x :: t', tg :: tl'))
+  | _, _ => ([], (l, tl))
+  end.
+
+Fixpoint attach (sched : list item) (bev : list ev) (btg : list (list nat)) : list (item * list nat) :=
+  match sched with
+  | [] => []
+  | it :: t => let '(g, (bev', btg')) := take_tags (fst it) bev btg in (it, g) :: attach t bev' btg'
+  end.
+
 (* root._flush(): the batch is what is queued now; events fired meanwhile wait for the next flush *)
 Definition flush (n : nat) (r : comp) (sched : list item) (s : st) : res st :=
-  if is_perm (map fst sched) (q s r) then dispatch_all n r sched (set_q s (upd (q s) r [])) else BadSched.
+  if is_perm (map fst sched) (q s r) then
+    let x := fx s in
+    dispatch_all n r (attach sched (q s r) (qt x r))
+                 (set_fx (set_q s (upd (q s) r [])) (mkfx (upd (qt x) r []) (nxt x) (out x) (wl x)))
+  else BadSched.
 
 (* tick(): no tasks, not running: if len(self._queue): self.flush()  (= self.root._flush()) *)
 Definition tick1 (n : nat) (r : comp) (sched : list item) (s : st) : res st :=
@@ -308,9 +437,9 @@ Inductive op :=
 
 Definition step (n : nat) (o : op) (s : st) : res st :=
   match o with
-  | OReg c p => register n c p s
-  | OUnreg c => unregister n c s
-  | OFire x i => fire n x i s
+  | OReg c p => registerX None n c p s
+  | OUnreg c => unregisterX None n c s
+  | OFire x i => fireX None n x i s
   | OTick r scheds => if (r <? n) && (par s r =? r) then ticks n r scheds s else PreViolated
   | OFlush x sched => if x <? n then flush n (rt s x) sched s else PreViolated
   end.
